@@ -352,6 +352,30 @@ def r1_tables_agree(ctx):
               "attribute prefix 'fit ' written and stripped consistently",
               f"attribute naming of fit properties disagrees: writer {wp}, "
               f"reader {rp}")
+    # the curve is looked up by the stored file hash and enumeration
+    look = [c for c in calls_in(ld) if isinstance(c.func, ast.Attribute)
+            and c.func.attr == "get_enum"]
+    ok = len(look) == 1 and norm(look[0].func.value) == \
+        "dataset_dict[attrs['data hash']]" and \
+        [norm(a) for a in look[0].args] == ["attrs['data enum']"]
+    ctx.check(ok, ld, "curve = group of 'data hash', enumeration 'data enum'",
+              "the stored analysis is attached to a curve that is not "
+              "selected by the stored file hash and enumeration")
+    w_ok = {"data enum": "indent.enum", "data hash": "dhash"}
+    for a_, v_ in w_ok.items():
+        ok = any(isinstance(st, ast.Assign) and norm(st.targets[0]) ==
+                 f"{W.outvar}.attrs['{a_}']" and norm(st.value) == v_
+                 for st in walk_no_nested(W.fn, False))
+        ctx.check(ok, W.fn, f"attribute '{a_}' <- {v_}",
+                  f"'{a_}' is not written from {v_}")
+    emb = [c for c in calls_in(W.fn) if isinstance(c.func, ast.Attribute)
+           and c.func.attr == "create_dataset"
+           and norm(c.func.value) != W.outvar]
+    ok = len(emb) == 1 and norm(emb[0].args[0]) == "dhash" and \
+        "np.fromfile(str(indent.path)" in norm(kwarg(emb[0], "data"))
+    ctx.check(ok, W.fn, "raw measurement file embedded under its hash",
+              "the embedded measurement is not the curve's file stored "
+              "under the file hash")
     # the decoded dict is what the curve receives
     ok = any(isinstance(st, ast.Assign) and norm(st.targets[0]) ==
              "indent.fit_properties" and norm(st.value) == "fit_properties"
